@@ -153,8 +153,23 @@ def check_C20(ctx, replay=None):
     accepted, nlines, tres, info = _trace_validate(ctx, trace, "c20")
     if not accepted:
         add_violation(ctx, "c20:trace-rejected", info, {"trace": info.get("trace"), "line": info.get("line")})
+    # no missed notification: AckStable on the model, the late-acknowledgement schedules on the code
+    late = run_tlc(ctx, "Durability", "MCDurabilityLate.cfg", workers=4, timeout=900, tags=("TABLE",))
+    _tlc_must_hold(ctx, late, "c20:tlc-invariant")
+    if not ctx.quick():
+        dv = run_tlc(ctx, "Durability", "MCDurabilityReset.cfg", workers=4, timeout=600, tags=(), expect_error=True)
+        if dv.ok:
+            raise core.ToolError("specification self-test failed: MCDurabilityReset.cfg should violate AckStable")
+    ltab, lrows = _dedupe_table(ctx, late, "late-table.ndjson")
+    la = run_harness(ctx, binary, ["lateack", ltab], timeout=3000)
+    for v in la.violations:
+        add_violation(ctx, v["key"], v["detail"], v["replay"])
+    hr.stats["evaluations"] += la.stats["evaluations"]
+    hr.stats["distinct_classes"] += la.stats["distinct_classes"]
+    hr.stats["samples"] = hr.stats.get("samples", []) + la.stats.get("samples", [])[:2]
     cov = {
-        "states": live.distinct, "transitions": live.generated, "traces_validated_against_impl": hr.stats.get("runs", 0),
+        "late_ack_schedules": la.stats["evaluations"],
+        "states": live.distinct + late.distinct, "transitions": live.generated, "traces_validated_against_impl": hr.stats.get("runs", 0),
         "samples": hr.stats.get("samples", []),
         "evaluations": hr.stats["evaluations"], "distinct_nontrivial": hr.stats["distinct_classes"],
         "appends": hr.stats.get("appends"), "append_errors": hr.stats.get("append_errors"),
@@ -166,7 +181,11 @@ def check_C20(ctx, replay=None):
                 "failed write). Binding: concurrent clients issue valid, rejected, half-failing and oversized appends with payloads "
                 "that force a rollover every few transactions, for each sync configuration (interval x byte/batch/timer trigger x "
                 "compression); every call must return within the deadline and the hook trace of each run, ending with close+reopen, "
-                "must be accepted by TraceDurability.tla (which requires that no reply is left unacknowledged).",
+                "must be accepted by TraceDurability.tla (which requires that no reply is left unacknowledged). AckStable (an "
+                "acknowledgement that became possible stays possible) is checked on Durability.tla, and for every writer position at "
+                "which a waiter of the sealed segment may still look at its watch (EmitLate table) the schedule is forced on the real "
+                "code: append A parked on its watch and kept from being polled, append B stepped through the rollover hook by hook, A "
+                "polled again at that position; it must complete at once.",
     }
     return finish(ctx, "model_checking", cov,
                   ["bounded time is decided as liveness under fairness in the specification and as a wall-clock deadline (5 s, far above "
